@@ -556,10 +556,15 @@ func (s *Service) truncateGlobally(ctx context.Context, sortedInfos []*TruncateI
 				jrnls++
 				ts -= ti.AfterSize
 				tr += ti.AfterSize
-				cr += len(cks)
+				nck := len(cks)
+				if tp.DryRun {
+					// a dry phase I removed nothing: cks still holds the chunks it already counted
+					nck -= ti.ChunksDeleted
+				}
+				cr += nck
 				ti.AfterSize = 0
 				ti.AfterRecs = 0
-				ti.ChunksDeleted += len(cks)
+				ti.ChunksDeleted += nck
 				ti.Deleted = true
 			}
 		}
